@@ -445,6 +445,20 @@ def _case_empty_reader(case, ctx):
         ri = call(lambda: [(int(a), int(b)) for a, b in rd.iter_chunks()])
         if ri.ok and _tiles(ri.value, 0):
             ctx.violation('iter_chunks_not_tiling', case, 'recording without samples: %s' % ri.value)
+    # the synthetic (random-data) reader: lengths around whole numbers of chunks
+    from phylib.io.traces import RandomEphysReader
+    for n_, cs_ in ((10, 5), (20, 10), (7, 3), (9, 3), (1, 1), (600000, 600000), (1200001, 600000)):
+        r = call(RandomEphysReader, n_, 2, sample_rate=cs_ / 600.)
+        ctx.count(1, cell=('random_reader',))
+        if not r.ok:
+            ctx.violation('raised', dict(case, random_reader=[n_, cs_]), 'RandomEphysReader raised %r' % r.exc, tb=r.tb)
+            continue
+        m_ = _check_bounds(r.value.chunk_bounds, [n_], cs_)
+        if m_:
+            ctx.violation('bad_reader_chunk_bounds', dict(case, random_reader=[n_, cs_]), 'random reader of %d samples, chunk length %d: %s' % (n_, cs_, m_))
+        ri = call(lambda: [(int(a), int(b)) for a, b in r.value.iter_chunks()])
+        if ri.ok and _tiles(ri.value, n_):
+            ctx.violation('iter_chunks_not_tiling', dict(case, random_reader=[n_, cs_]), 'random reader of %d samples: %s' % (n_, _tiles(ri.value, n_)))
     # samples but no channel (what traces[:, []] is): the sample axis is chunked as usual
     for n_, cs_ in ((11, 4), (5, 5), (1, 3)):
         r = call(get_ephys_reader, np.zeros((n_, 0), dtype=np.int16), sample_rate=cs_ / 600.)
